@@ -29,7 +29,7 @@ ASSUMPTIONS = [
     "matchings that violate the junction conditions (C02, known finding D9) are not 'matched flows': skipped here and tagged skipped-nonconserved",
     "Tn tolerance = 8*(rtol+atol/v+)*|dlnTn/dlnv+| (brentq on v+) + 30*rtol (RK45 shock integration, brentq on Tn), floor 1e-10",
     "momentum-flux clause only for EOS with constant c_s ahead of the wall (bag, template)",
-    "efficiency factor: relative tolerance 100*rtol + 5e-6 (RK45 tolerance + Simpson rule over 400 uniform samples of the dense output)",
+    "efficiency factor: relative tolerance 100*rtol + 3e-5 (RK45 tolerance + Simpson rule over 400 uniform samples of the dense output)",
 ]
 
 
@@ -116,7 +116,7 @@ def case_eos(c: dict) -> dict:
                 r.true(f"{name}:kappa-no-exception", False, error=repr(ex)[:200], vw=v)
                 continue
             k_or, parts = OH.kappa(eos, v, vp, vm, Tp, Tm, Tn, alN)
-            kt = (100 * tol["rtol"] + 5e-6) * abs(k_or) + 1e-12  # ODE tolerance + Simpson rule on 400 uniform samples
+            kt = (100 * tol["rtol"] + 3e-5) * abs(k_or) + 1e-12  # ODE tolerance + Simpson rule on 400 uniform samples (worst measured 7e-6, at the sonic start of a hybrid's rarefaction wave)
             r.close(f"{name}:kappa", k_code, k_or, kt, vw=v, parts=parts, branch=branch)
             r.tag("kappa-" + branch)
     return r.result(nontrivial=nshock > 0)
